@@ -302,6 +302,7 @@ class Ctx:
         self.extra_cov = {}
         self.assumptions = []
         self.traces_validated = 0
+        self.listedit = []
 
     @property
     def thorough(self):
